@@ -29,6 +29,7 @@ type Run struct {
 	nq     int
 	Restarts int
 	TipBefore wire.Hash // stored tip found by the last Open before Start ran
+	tipKnown  bool      // the last Open got as far as reading the stored tip
 }
 
 func (r *Run) emit(f string, a ...interface{}) { r.Lines = append(r.Lines, fmt.Sprintf(f, a...)) }
@@ -86,6 +87,7 @@ func (r *Run) guard(f func()) bool {
 // syncedBefore is the wallet's stored tip height before Start ran (for the catch-up record).
 func (r *Run) Open(ctl *dbwrap.Ctl) (ok bool, syncedBefore uint64, err error) {
 	r.Ctl = ctl
+	r.tipKnown = false
 	var wrap sim.DBWrap
 	var opened mwdb.DB
 	if ctl != nil {
@@ -111,6 +113,7 @@ func (r *Run) Open(ctl *dbwrap.Ctl) (ok bool, syncedBefore uint64, err error) {
 		if err != nil {
 			return
 		}
+		r.tipKnown = true
 		err = w.WM.Start()
 		if err != nil {
 			return
@@ -253,11 +256,17 @@ func (r *Run) Query() {
 	if r.Stale {
 		q = 0
 	}
+	var lines []string
 	for _, num := range r.activeNums() {
-		o := r.W.Observe(r.S.Wallets[num].ID)
-		r.emit("Q %d %d %s", num, q, r.S.Gen.Report(o))
-		r.nq++
+		id := r.S.Wallets[num].ID
+		if ready, err := r.W.WM.CheckReady(id); err != nil || !ready {
+			continue // being imported (or removed): it has no report yet
+		}
+		o := r.W.Observe(id)
+		lines = append(lines, fmt.Sprintf("Q %d %d %s", num, q, r.S.Gen.Report(o)))
 	}
+	r.Lines = append(r.Lines, lines...)
+	r.nq += len(lines)
 }
 
 func (r *Run) activeNums() []int {
